@@ -3,6 +3,7 @@ package main
 // Heap access: per-(struct,field) arrays, cells, element stores, maps, sub-objects, well-typedness axioms.
 
 import (
+	"os"
 	"fmt"
 	"go/types"
 	"strings"
@@ -211,16 +212,35 @@ func (x *Exec) writeComps(st *State, key string, t types.Type, ref string, v Val
 // bumpWrite advances the heap version seen by heap-reading pure functions.  A write into an object that this activation allocated
 // and whose reference was never stored anywhere is invisible to functions that are not handed the object (counter hvF)
 func (st *State) bumpWrite(target string, vals []string) {
-	for _, v := range vals {
-		if strings.Contains(v, "ref!") {
-			st.escaped = true
+	if !isFreshRef(target) {
+		// a fresh reference stored into memory that existed before (or whose freshness is not syntactically known) escapes;
+		// stored into another fresh object it stays unreachable until that object escapes
+		for _, v := range vals {
+			if strings.Contains(v, "ref!") {
+				st.escaped = true
+			}
 		}
 	}
-	if strings.HasPrefix(target, "ref!") && !st.escaped {
+	if isFreshRef(target) && !st.escaped {
 		st.hvF++
 		return
 	}
+	if os.Getenv("GOVC_DEBUG_HV") != "" {
+		fmt.Fprintf(os.Stderr, "HV bump: target=%s escaped=%v vals=%v\n", truncate(target, 80), st.escaped, len(vals))
+	}
 	st.hv++
+}
+
+// isFreshRef: syntactically an object allocated by the current activation, or a struct-valued field (sub-object) of one
+func isFreshRef(t string) bool {
+	for strings.HasPrefix(t, "(sub.") {
+		i := strings.IndexByte(t, ' ')
+		if i < 0 || !strings.HasSuffix(t, ")") {
+			return false
+		}
+		t = t[i+1 : len(t)-1]
+	}
+	return strings.HasPrefix(t, "ref!")
 }
 
 // heapVersion: the version terms a heap-reading pure function applied to args depends on
